@@ -93,7 +93,8 @@ theorem C11.adupdates_step_refines {K V W : Type} [Field K] [AddCommGroup V] [Mo
 
 /-- `adupdates` = `adupdates_simple` (fixed order): for every number of operators, all operators /
 adjoints / proximals (arbitrary functions), all step sizes, every assignment `rid` of operators to
-shared temporaries, every initial content of those temporaries, every `n`: same `x`, same duals. -/
+shared temporaries, every initial content of those temporaries, scalar AND pointwise (array-valued)
+inner step sizes, every `n`: same `x`, same duals. -/
 theorem C11.adupdates_refines {K V W : Type} [Field K] [AddCommGroup V] [Module K V]
     [AddCommGroup W] [Module K W] (P : AduP K V W) (x0 : V) (duals0 tmp0 : Nat → W) (n : Nat) :
     (P.stepOpt^[n] ⟨x0, duals0, tmp0, []⟩).x = (P.stepSimple^[n] ⟨x0, duals0⟩).x ∧
@@ -273,11 +274,11 @@ theorem C11.osmlem_callback_count {V W : Type} (P : OsmlemP V W) (s : OsmlemS V 
 (`rid = 0`): the iterate moves and both versions agree. -/
 example :
     let P : AduP ℚ ℚ ℚ := ⟨2, fun i x => (i + 1 : ℚ) * x, fun i y => (i + 1 : ℚ) * y,
-      fun _ y => y / 2, 1, fun _ => 1 / 2, fun _ => 0, false⟩
+      fun _ y => y / 2, 1, fun _ => .scalar (1 / 2), fun a b => a * b, fun _ => 0, false⟩
     (P.stepOpt^[1] ⟨1, fun _ => 0, fun _ => -77, []⟩).x = (P.stepSimple^[1] ⟨1, fun _ => 0⟩).x ∧
     (P.stepSimple^[1] ⟨1, fun _ => 0⟩).x ≠ 1 := by
   simp only [Function.iterate_succ, Function.iterate_zero, Function.comp, AduP.stepOpt,
-    AduP.stepSimple, AduP.primal, AduP.innerOpt, AduP.innerSimple, forRange, List.range,
+    AduP.stepSimple, AduP.primal, AduP.innerOpt, AduP.innerSimple, AduP.scaled, forRange, List.range,
     List.range.loop, List.foldl, upd, smul_eq_mul]
   norm_num
 
